@@ -12,6 +12,11 @@ var (
 	mutexTimeZones = sync.RWMutex{}
 )
 
+// maxCachedTimeZones bounds cacheTimeZone. The offset is taken from the file
+// and is not limited to real-world zones, so a long-lived process would
+// otherwise keep one entry for every offset it has ever been shown.
+const maxCachedTimeZones = 1024
+
 // getLocation faciliates an offset and a time string to result
 // with a *time.Location creating it when not cound in the cache.
 // RWMutex for concurrancy.
@@ -29,7 +34,9 @@ func getLocation(offset int32, buf []byte) *time.Location {
 	}
 	mutexTimeZones.Lock()
 	l := time.FixedZone(string(buf), int(offset))
-	cacheTimeZone[offset] = l
+	if len(cacheTimeZone) < maxCachedTimeZones {
+		cacheTimeZone[offset] = l
+	}
 	mutexTimeZones.Unlock()
 	return l
 }
